@@ -140,6 +140,7 @@ func New(file io.Reader, profile string) AppArmorLogs {
 
 		aa := make(AppArmorLog)
 		for _, item := range tmp {
+			quoted = false // every field starts outside quotes, whatever the previous ones held
 			kv := strings.FieldsFunc(item, func(r rune) bool {
 				if r == '"' {
 					quoted = !quoted
